@@ -1,6 +1,7 @@
 package bridge
 
 import (
+	"bytes"
 	"crypto"
 	"errors"
 	"fmt"
@@ -76,16 +77,28 @@ type SpySigner struct {
 	Alg   cose.Algorithm
 	Mode  int
 	Inner func(tbs []byte) []byte
-	mu    sync.Mutex
-	Calls [][]byte
+	// Reenter, if set, is called while the signer still holds the content it
+	// was handed (a key that itself uses the library, or simply takes time);
+	// afterwards the content must be unchanged, else Corrupted is set.
+	Reenter   func()
+	Corrupted bool
+	mu        sync.Mutex
+	Calls     [][]byte
 }
 
 func (s *SpySigner) Algorithm() cose.Algorithm { return s.Alg }
 
 func (s *SpySigner) Sign(_ io.Reader, content []byte) ([]byte, error) {
+	snapshot := append([]byte{}, content...)
 	s.mu.Lock()
-	s.Calls = append(s.Calls, append([]byte{}, content...))
+	s.Calls = append(s.Calls, snapshot)
 	s.mu.Unlock()
+	if s.Reenter != nil {
+		s.Reenter()
+		if !bytes.Equal(content, snapshot) {
+			s.Corrupted = true
+		}
+	}
 	switch s.Mode {
 	case SignErr:
 		return nil, ErrInjected
@@ -123,8 +136,13 @@ type SpyVerifier struct {
 	Alg    cose.Algorithm
 	Result error
 	Fn     func(content, sig []byte) error
-	mu     sync.Mutex
-	Calls  []VCall
+	// Results, if set, scripts the outcome per call (the last entry repeats).
+	Results []error
+	// Reenter: see SpySigner.
+	Reenter   func()
+	Corrupted bool
+	mu        sync.Mutex
+	Calls     []VCall
 }
 
 func (v *SpyVerifier) Algorithm() cose.Algorithm { return v.Alg }
@@ -132,7 +150,21 @@ func (v *SpyVerifier) Algorithm() cose.Algorithm { return v.Alg }
 func (v *SpyVerifier) Verify(content, sig []byte) error {
 	v.mu.Lock()
 	v.Calls = append(v.Calls, VCall{append([]byte{}, content...), append([]byte{}, sig...)})
+	n := len(v.Calls)
 	v.mu.Unlock()
+	if v.Reenter != nil {
+		snapshot := append([]byte{}, content...)
+		v.Reenter()
+		if !bytes.Equal(content, snapshot) {
+			v.Corrupted = true
+		}
+	}
+	if len(v.Results) > 0 {
+		if n > len(v.Results) {
+			n = len(v.Results)
+		}
+		return v.Results[n-1]
+	}
 	if v.Fn != nil {
 		return v.Fn(content, sig)
 	}
